@@ -418,8 +418,15 @@ func check(prop, tier string) int {
 	return 0
 }
 
+func repoPath() string {
+	if r := os.Getenv("VERIF_REPO"); r != "" {
+		return r
+	}
+	return "/repo"
+}
+
 func repoStatus() string {
-	c := exec.Command("git", "-C", "/repo", "status", "--porcelain")
+	c := exec.Command("git", "-C", repoPath(), "status", "--porcelain")
 	b, _ := c.Output()
 	return string(b)
 }
